@@ -119,10 +119,10 @@ class BaseManager:
             raise ValueError('sid is not connected to requested namespace')
         if namespace not in self.rooms:
             self.rooms[namespace] = {}
-        if room not in self.rooms[namespace]:
-            self.rooms[namespace][room] = bidict()
         if eio_sid is None:
             eio_sid = self.rooms[namespace][None][sid]
+        if room not in self.rooms[namespace]:
+            self.rooms[namespace][room] = bidict()
         self.rooms[namespace][room][sid] = eio_sid
 
     def basic_leave_room(self, sid, namespace, room):
